@@ -38,7 +38,7 @@ def decryptSubject (key : Bytes) (e : Env) : Res Env :=
   match e.subject with
   | .encrypted m _ =>
     match decryptMsg A key m with
-    | none => .err "dep:decrypt-failed"
+    | none => .err "dep:Decrypt_failed"
     | some plaintext =>
       match m.optDigest with
       | none => .err "MissingDigest"
@@ -89,7 +89,10 @@ def compressSubject (e : Env) : Res Env :=
 /-- `uncompress_subject` -/
 def uncompressSubject (e : Env) : Res Env :=
   if e.subject.isCompressed then
-    (uncompress h Z e.subject).bind fun s => replaceSubject h e s
+    (uncompress h Z e.subject).bind fun s =>
+      match e with
+      | .node _ as _ => newNodeUnchecked h s as
+      | _ => .ok s
   else .ok e
 
 end
